@@ -65,6 +65,16 @@ def exProg : Prog :=
     top := [⟨"newG 1 V", .newG 1 (some .V)⟩, ⟨"connfn 1 1 fn 1", .connfn 1 1 (.fn 1) false⟩,
             ⟨"connfn 2 1 fn 2", .connfn 2 1 (.fn 2) true⟩, ⟨"emit 1 7", .emit 1 7 .sum false⟩] }
 
+/-- a concrete program with a functor-owned signal object: the slot list of signal 1 holds a functor that owns
+    signal 2 (`ownG`); `delG 2` is refused (`owned`), and signal 2 dies in `collect` when signal 1 (and with it the
+    last functor copy) is destroyed -/
+def exProgG : Prog :=
+  { bodies := [],
+    top := [⟨"newG 1 V", .newG 1 (some .V)⟩, ⟨"newG 2 V", .newG 2 (some .V)⟩,
+            ⟨"connfn 1 1 ownG 5 2", .connfn 1 1 (.ownG 5 2) false⟩, ⟨"connfn 2 2 fn 6", .connfn 2 2 (.fn 6) false⟩,
+            ⟨"delG 2", .delG 2⟩, ⟨"emit 2 3", .emit 2 3 .sum false⟩, ⟨"delG 1", .delG 1⟩,
+            ⟨"emit 2 4", .emit 2 4 .sum false⟩] }
+
 /-- the slot invocations logged in a trace: `(depth, functor, argument)` in order (newest first) -/
 def calls (tr : List Event) : List (Nat × Nat × Nat) :=
   tr.filterMap (fun e => match e with
